@@ -290,9 +290,14 @@ func (g *lockGen) plan() *BlockPlan {
 	}
 	if rare(4) {
 		vid, addr := pickVal()
-		id := g.id()
-		lk.Claims = append(lk.Claims, &goattypes.ClaimRequest{Id: uint64(id), Validator: addr, Recipient: rndAddr(r)})
-		claims = append(claims, Ev{"id": id, "v": vid})
+		for k := 1 + r.Intn(3); k > 0; k-- { // several claims in one block, often for the same validator (paid once, then nothing)
+			if rare(3) {
+				vid, addr = pickVal()
+			}
+			id := g.id()
+			lk.Claims = append(lk.Claims, &goattypes.ClaimRequest{Id: uint64(id), Validator: addr, Recipient: rndAddr(r)})
+			claims = append(claims, Ev{"id": id, "v": vid})
+		}
 	}
 	set := func(k string, v []Ev) {
 		if v != nil {
